@@ -38,7 +38,7 @@ import (
 const verifDir = "/verif"
 
 var basePkgs = []string{"errors", "encoding/binary", "bytes", "strings", "sort", "slices", "math/bits", "io",
-	"unicode/utf8", "strconv", "internal/strconv", "sync/atomic", "context", "container/list", "maps", "bufio", "cmp", "iter", "math"}
+	"unicode/utf8", "strconv", "internal/strconv", "internal/stringslite", "sync/atomic", "context", "container/list", "maps", "bufio", "cmp", "iter", "math"}
 
 type harnessDef struct {
 	Name    string
